@@ -200,7 +200,7 @@ template <int OP> void s_copy(Ctx& c) {
     case COPY: { Grid t(a); (void) t.minimized_grid_generators(); break; }
     case ASSIGN: b = a; break;
     case SWAP: { Grid t(a); t.m_swap(b); swap(t, b); break; }
-    case GETTERS: { Congruence_System cg(a.congruences()); Congruence_System mcg(a.minimized_congruences()); Grid_Generator_System gs(a.grid_generators()); Grid_Generator_System mgs(a.minimized_grid_generators()); Constraint_System cs(a.constraints()); Grid t(cg); if (gs.has_no_rows()) break; Grid u(gs); b.m_swap(u); break; }
+    case GETTERS: { Congruence_System cg(a.congruences()); Congruence_System mcg(a.minimized_congruences()); Grid_Generator_System gs(a.grid_generators()); Grid_Generator_System mgs(a.minimized_grid_generators()); Constraint_System cs(a.constraints()); Grid t(cg); if (gs.begin() == gs.end()) break; Grid u(gs); b.m_swap(u); break; }
     case FROM_POLY: { Grid t(ph); b.m_swap(t); break; }
     case FROM_BOX: { Grid t(box); b.m_swap(t); break; }
     }
